@@ -689,3 +689,43 @@ META = {
     'assumptions': ['interleavings of `go` activations (Go scheduler) are outside', 'index-out-of-range / nil dereference are not effects goml can emit outside its runtime helpers'],
     'trusted_base': ['mirsym MIR interpreter', 'library models listed per obligation', 'z3', 'effect oracle (30 lines, Go spec)'],
 }
+
+# ----------------------------------------------------------------------------- O9.5 an effectful C-expression in statement position is emitted
+def ob_effect_position(r, tier, seed):
+    W = e2.fresh_world(CRATES); tt = W.tt
+    CE = tt.find_adt(['anf', 'CExpr'], 'compiler'); GS = tt.find_adt(['goast', 'Stmt'], 'compiler'); GE = tt.find_adt(['goast', 'Expr'], 'compiler'); GT = tt.find_adt(['goty', 'GoType'], 'compiler')
+    effectful = ('ECall', 'EDynCall', 'EGo'); control = ('EMatch', 'EIf', 'EWhile')
+    variants = [v.name for v in CE.variants if v.name not in control]
+    r.bounds = 'compile_cexpr_effect on every anf::CExpr constructor except the control-flow ones (%s); operands opaque' % variants
+    r.assumptions = ['compile_cexpr and compile_go are replaced by markers (their own translation is O9.4 / O10.x); control-flow expressions are handled before this function (its own panic message)',
+                     'oracle: a call, a dynamic (trait-object) call and a `go` are emitted as a statement; the value-only constructors may be dropped']
+    marker = lambda: Agg(GE.key, GE.vindex('Call'), [mkbox(Agg(GE.key, GE.vindex('Var'), [mkstr('marker'), Agg(GT.key, GT.vindex('TUnit'), [])])), PyVec([]), Agg(GT.key, GT.vindex('TUnit'), [])])
+    W.stubs['compile_cexpr'] = lambda ex, a: marker()
+    W.stubs['compile_go'] = lambda ex, a: Agg(GS.key, GS.vindex('Go'), [marker()])
+    def entry(ex):
+        vn = ex.choose([(True, v) for v in variants]); v = CE.variants[CE.vindex(vn)]
+        isbox = lambda fty: bool(fty) and 'resolved_path' in fty and fty['resolved_path']['path'].split('::')[-1] == 'Box'
+        c = Agg(CE.key, CE.vindex(vn), [mkbox(Opaque('operand.' + str(f[0]))) if isbox(f[1]) else Opaque('operand.' + str(f[0])) for f in v.fields])
+        h = {0: Opaque('goenv'), 1: c}
+        out = ex.call('go::compile::compile_cexpr_effect', [Ref(h, 0), Ref(h, 1)])
+        return vn, [GS.variants[s_.idx].name for s_ in out.items]
+    res = e2.explore(r, W, entry, [])
+    for p in res:
+        r.cases += 1
+        if p.kind != 'ok':
+            if not any(f.key == 'panic' for f in r.findings): r.findings.append(Finding('panic', 'compile_cexpr_effect panics: %s' % p.value, {}, False, 'not replayed'))
+            continue
+        vn, stmts = p.value; r.nontrivial += 1
+        if vn in effectful and not stmts:
+            ok_, detail = True, 'statement list returned by the real compile_cexpr_effect MIR'
+            if vn == 'EDynCall':
+                src = 'struct P { x: int32 }\ntrait S { fn show(Self) -> unit; }\nimpl S for P { fn show(self: P) -> unit { string_println("p") } }\nfn main() -> unit { let d: dyn S = P { x: 1 }; let i = ref(0); let _ = (while ref_get(i) < 1 { let _ = ref_set(i, 1); S::show(d) }); () }\n'
+                go = compile_program(src); body = go[go.find('func main0'):].split('func main()')[0]
+                loop = body[body.find('for {'):]
+                ok_ = 'func main0' in go and 'vtable' not in loop; detail = 'goml program with a dyn call as the last expression of a while body: the loop in main0 is `%s`' % loop[:260].replace('\n', ' | ')
+            r.findings.append(Finding('effectful-expression-dropped:' + vn, 'compile_cexpr_effect emits nothing for the effectful C-expression %s' % vn, {'constructor': vn}, ok_, detail))
+        elif len(r.samples) < 4: r.samples.append({'constructor': vn, 'statements': stmts})
+
+_c09_obl = obligations
+def obligations():
+    return _c09_obl() + [Ob('O9.5-effect-position', 'an effectful C-expression used only for its effect is emitted as a statement', ob_effect_position, ('quick', 'thorough'), 1, {})]
